@@ -32,15 +32,40 @@ class CheckRun:
         self.assumptions = []
         self.exhaustive = False
         self.known = load_known(pid)
+        self.timing = []
+        self.pending_mc = []
+
+    def drive(self, fn, cases, warm_cases=(), **kw):
+        """run the cases against the real code (timed)."""
+        from . import runner
+        t = time.time()
+        out = runner.run_cases(fn, cases, warm_cases=warm_cases, **kw)
+        self.timing.append(("drive", len(cases), round(time.time() - t, 1)))
+        return out
 
     # ---------------------------------------------------------------- TLC on the spec
+    def mc_bg(self, module, cfg_text, name, expect=None, workers=6, timeout=3600, heap="12g"):
+        """start TLC in the background (a child process, no thread); judged in join_mc()/finish()."""
+        h = tlc.model_check_start(module, cfg_text, f"{self.pid}_{name}", workers=workers, heap=heap)
+        self.pending_mc.append((h, name, expect, timeout))
+
+    def join_mc(self):
+        pend, self.pending_mc = self.pending_mc, []
+        for h, name, expect, timeout in pend:
+            self._judge_mc(tlc.model_check_finish(h, timeout), name, expect)
+
     def mc(self, module, cfg_text, name, expect=None, workers=16, timeout=3600, heap="12g"):
         """expect=None: the model must satisfy everything in the cfg.
         expect='InvName': negative config -- TLC must report exactly that violation."""
         res = tlc.model_check(module, cfg_text, f"{self.pid}_{name}", workers=workers, timeout=timeout, heap=heap)
+        return self._judge_mc(res, name, expect)
+
+    def _judge_mc(self, res, name, expect):
+        module = res["module"]
         rec = {"name": name, "module": module, "distinct": res["distinct"], "generated": res["generated"],
                "wall_s": round(res["wall"], 1), "expect": expect, "violated": res["violated"]}
         self.mc_runs.append(rec)
+        self.timing.append(("tlc:" + name, res["distinct"], round(res["wall"], 1)))
         if res.get("error"):
             raise Machinery(f"TLC error in {name}: {res['error']}  ({res['out_path']})")
         if expect is None:
@@ -67,6 +92,7 @@ class CheckRun:
         self.check_harness(traces)
         self.evaluations += len(traces)
         acc, _, st = tlc.validate(trace_module, traces, f"{self.pid}_{name}", cfg_text)
+        self.timing.append(("validate:" + name, len(traces), round(st["wall"], 1)))
         self.states += st["distinct"]
         self.transitions += st["generated"]
         self.traces_ok += len(acc)
@@ -117,6 +143,7 @@ class CheckRun:
 
     # ---------------------------------------------------------------- finish
     def finish(self):
+        self.join_mc()
         env.EVIDENCE.mkdir(exist_ok=True)
         rdir = env.REPLAYS / self.pid
         replay_paths = []
@@ -147,6 +174,7 @@ class CheckRun:
             "known_findings_hit": self.known_hit,
             "tree_hash": self.tree,
         }
+        cov["timing"] = self.timing
         cov.update(self.notes)
         ev = {"property_id": self.pid, "tier": self.tier, "seed": self.seed, "level": "model_checking",
               "coverage": cov, "assumptions": self.assumptions,
